@@ -57,6 +57,13 @@ CLAIMED = {
              'soundness are not decided.',
         note=STATIC_NOTE,
         technique='static analysis: HIR effect-schedule extraction + normal-form comparison; MIR must-call'),
+    'C08': dict(
+        text='Static sibling rules between the in-circuit exposure and the off-circuit encoding: every Instantiable type has an exposure impl; in each impl '
+             'constrain_as_public_input constrains exactly the as_public_input vector (call + iteration / delegation / same fields) and assign_as_public_input '
+             'is assign + constrain or a delegation; Layouter::constrain_instance is reachable only through the two counting primitives, each bumping its row '
+             'counter once; the count flows synthesize → setup_vk → key → verify. Value-level equality and injectivity of encodings are not decided.',
+        note=STATIC_NOTE,
+        technique='static analysis: impl pairing (PAIR), HIR call/field sibling rules, who-may-call'),
     'C09': dict(
         text='Non-interference by static effect analysis: Value is opaque outside midnight-proofs (privacy + who-may-call of its two escape hatches), every closure '
              'handed to a Value combinator in the four downstream crates is enumerated and must be pure w.r.t. circuit structure (no mutable capture, no '
